@@ -17,6 +17,9 @@ func mentionsField(v ssa.Value, f *types.Var) bool {
 	if f == nil || v == nil {
 		return false
 	}
+	if eng.LoadsField(v, f) {
+		return true
+	}
 	for _, r := range eng.Origins(v, nil) {
 		if eng.LoadsField(r, f) {
 			return true
